@@ -39,6 +39,11 @@ type c11Script struct {
 	// quiescent (first message sent if any is published); only what the clients do
 	// afterwards is explored.  The id of the first message is in conn.share (twice).
 	warm bool
+	// limit: the largest max-outstanding-messages in force during the script
+	// (default fc.MaxMessages)
+	limit int
+	// warmN: how many messages the warm phase waits for (default 1 when npub > 0)
+	warmN int
 	// bound: preemption bound override per tier (0 = the layer's default)
 	boundQuick, boundThorough int
 	// client2: an optional second concurrent client
@@ -141,22 +146,26 @@ func c11Scripts() []c11Script {
 	return []c11Script{
 		{name: "stream nack frees capacity", fc: actions.FlowControl{MaxMessages: 1, MaxBytes: 1000}, npub: 2, client: func(conn *memConn, got <-chan uuid.UUID, w *world.World) {
 			id := <-got
+			conn.settle(id)
 			conn.reqs <- &actions.MessageStreamRequest{Nack: []uuid.UUID{id}}
 		}},
 		{name: "stream ack frees capacity", fc: actions.FlowControl{MaxMessages: 1, MaxBytes: 1000}, npub: 2, client: func(conn *memConn, got <-chan uuid.UUID, w *world.World) {
 			id := <-got
+			conn.settle(id)
 			conn.reqs <- &actions.MessageStreamRequest{Ack: []uuid.UUID{id}}
 		}},
 		{name: "stream zero-deadline frees capacity", fc: actions.FlowControl{MaxMessages: 1, MaxBytes: 1000}, npub: 2, client: func(conn *memConn, got <-chan uuid.UUID, w *world.World) {
 			id := <-got
+			conn.settle(id)
 			conn.reqs <- &actions.MessageStreamRequest{Delay: []uuid.UUID{id}, DelaySeconds: 0}
 		}},
-		{name: "flow control raised", fc: actions.FlowControl{MaxMessages: 1, MaxBytes: 1000}, npub: 2, client: func(conn *memConn, got <-chan uuid.UUID, w *world.World) {
+		{name: "flow control raised", fc: actions.FlowControl{MaxMessages: 1, MaxBytes: 1000}, npub: 2, limit: 2, client: func(conn *memConn, got <-chan uuid.UUID, w *world.World) {
 			<-got
 			conn.reqs <- &actions.MessageStreamRequest{FlowControl: &actions.FlowControl{MaxMessages: 2, MaxBytes: 1000}}
 		}},
 		{name: "external Acknowledge frees capacity", fc: actions.FlowControl{MaxMessages: 1, MaxBytes: 1000}, npub: 2, client: func(conn *memConn, got <-chan uuid.UUID, w *world.World) {
 			id := <-got
+			conn.settle(id)
 			w.Sub.Acknowledge(vsql.WithThread(context.Background(), "client"), &pubsubpb.AcknowledgeRequest{Subscription: c11Sub, AckIds: []string{id.String()}})
 		}},
 	}
@@ -175,12 +184,35 @@ func twoWakeUps(name string) c11Script {
 		},
 		client2: func(conn *memConn, got <-chan uuid.UUID, w *world.World) {
 			id := <-conn.share
+			conn.settle(id)
 			w.Sub.Acknowledge(vsql.WithThread(context.Background(), "client2"), &pubsubpb.AcknowledgeRequest{Subscription: c11Sub, AckIds: []string{id.String()}})
 		}}
 }
 
 func c11Interleavings(t *testing.T, tier string, deadline time.Time) (map[string]any, []report.Viol, error) {
-	return streamInterleavings(t, "C11", append(c11Scripts(), twoWakeUps("publish and external Acknowledge in quick succession")), tier, deadline)
+	scripts := append(c11Scripts(), twoWakeUps("publish and external Acknowledge in quick succession"),
+		// how the Google client library works: limit 2, both outstanding messages
+		// acknowledged by ONE external Acknowledge, two more must follow
+		c11Script{name: "limit 2, one external Acknowledge of both outstanding messages", fc: actions.FlowControl{MaxMessages: 2, MaxBytes: 10_000_000}, npub: 4, want: 4, warm: true, warmN: 2,
+			client: func(conn *memConn, got <-chan uuid.UUID, w *world.World) {
+				a, b := <-conn.share, <-conn.share
+				conn.settle(a, b)
+				w.Sub.Acknowledge(vsql.WithThread(context.Background(), "client"), &pubsubpb.AcknowledgeRequest{Subscription: c11Sub, AckIds: []string{a.String(), b.String()}})
+			}},
+		// ... and the two acknowledged one after the other by two clients
+		c11Script{name: "limit 2, two external Acknowledges racing", fc: actions.FlowControl{MaxMessages: 2, MaxBytes: 10_000_000}, npub: 4, want: 4, warm: true, warmN: 2,
+			client: func(conn *memConn, got <-chan uuid.UUID, w *world.World) {
+				a := <-conn.share
+				conn.settle(a)
+				w.Sub.Acknowledge(vsql.WithThread(context.Background(), "client"), &pubsubpb.AcknowledgeRequest{Subscription: c11Sub, AckIds: []string{a.String()}})
+			},
+			client2: func(conn *memConn, got <-chan uuid.UUID, w *world.World) {
+				b := <-conn.share
+				conn.settle(b)
+				w.Sub.Acknowledge(vsql.WithThread(context.Background(), "client2"), &pubsubpb.AcknowledgeRequest{Subscription: c11Sub, AckIds: []string{b.String()}})
+			}},
+	)
+	return streamInterleavings(t, "C11", scripts, tier, deadline)
 }
 
 func c10Interleavings(t *testing.T, tier string, deadline time.Time) (map[string]any, []report.Viol, error) {
@@ -276,8 +308,11 @@ func streamInterleavings(t *testing.T, prop string, scripts []c11Script, tier st
 				settled := map[string]bool{}
 				verdict := ""
 				curMax := sc.fc.MaxMessages
+				if sc.limit > 0 {
+					curMax = sc.limit
+				}
 				got := make(chan uuid.UUID, 16)
-				conn := &memConn{reqs: make(chan *actions.MessageStreamRequest), share: make(chan uuid.UUID, 4)}
+				conn := &memConn{reqs: make(chan *actions.MessageStreamRequest), share: make(chan uuid.UUID, 16)}
 				conn.onSend = func(d *actions.SubscriptionMessageDelivery) {
 					vmu.Lock()
 					defer vmu.Unlock()
@@ -288,13 +323,20 @@ func streamInterleavings(t *testing.T, prop string, scripts []c11Script, tier st
 							n++
 						}
 					}
-					if n > 2 { // the largest limit any script sets
+					if n > curMax {
 						verdict = fmt.Sprintf("VIOLATION %d messages outstanding, limit %d", n, curMax)
 					}
 					select {
 					case got <- d.ID:
 					default:
 					}
+				}
+				conn.settle = func(ids ...uuid.UUID) {
+					vmu.Lock()
+					for _, id := range ids {
+						settled[id.String()] = true
+					}
+					vmu.Unlock()
 				}
 				w.SetExtra(txGateHook)
 				r := sched.NewRun()
@@ -306,7 +348,11 @@ func streamInterleavings(t *testing.T, prop string, scripts []c11Script, tier st
 					r.SetFree(true)
 					r.Go("streamer", func() { done <- ms.Go(ctx, conn) })
 					conn.reqs <- &actions.MessageStreamRequest{FlowControl: &actions.FlowControl{MaxMessages: sc.fc.MaxMessages, MaxBytes: sc.fc.MaxBytes}}
-					if sc.npub > 0 {
+					if sc.warmN > 0 {
+						for i := 0; i < sc.warmN; i++ {
+							conn.share <- <-got
+						}
+					} else if sc.npub > 0 {
 						id := <-got
 						conn.share <- id
 						conn.share <- id
